@@ -20,6 +20,54 @@ TAGS = ["mosAbstract", "objSlug", "objDur", "objTB", "ncsItem", "studioCommand",
 ATTRS = ["type", "techDescription", "lang", "data-x", "id"]
 
 
+# ------------------------------------------------------------------------------------------
+# ID styles: the specification is agnostic about what an ID looks like, the code may not be.  A style is a bijection on
+# the ID strings of one case / behaviour, applied to the abstract running order AND the abstract messages before
+# anything is rendered or judged (TLC then simply sees other strings).
+# ------------------------------------------------------------------------------------------
+ID_STYLES = ("plain", "plain", "prefix", "special", "case", "spaces", "long")
+
+
+def id_style_map(style):
+    cache = {}
+
+    def f(x):
+        if x in (NONE, "", None) or style == "plain":
+            return x
+        if x in cache:
+            return cache[x]
+        n = len(cache) + 1
+        if style == "prefix":          # every id is a proper prefix of the next one
+            y = "ID" + "x" * n
+        elif style == "special":       # markup-significant and quoting characters
+            y = "%s&<%d>\"'];" % (x, n)
+        elif style == "case":          # ids that differ only in case
+            base = "story"
+            y = "".join(ch.upper() if (n >> i) & 1 else ch for i, ch in enumerate(base)) + ("" if n < 32 else str(n))
+        elif style == "spaces":        # inner blanks and dots; never leading / trailing ones
+            y = "a" + " " * n + "b.c"
+        else:                          # long ids with a common 60-character head
+            y = "L" * 60 + "-%03d-" % n + x
+        cache[x] = y
+        return y
+    return f
+
+
+def restyle(obj, f):
+    """rename every id in an abstract value (nodes and references); tokens are left alone"""
+    if isinstance(obj, dict):
+        out = {}
+        for k, v in obj.items():
+            if k == "id" and isinstance(v, str):
+                out[k] = f(v)
+            else:
+                out[k] = restyle(v, f)
+        return out
+    if isinstance(obj, list):
+        return [restyle(x, f) for x in obj]
+    return obj
+
+
 class Gamma:
     def __init__(self, seed, style=None):
         self.seed = seed
